@@ -309,5 +309,5 @@ pub fn property(tier: Tier) -> Property {
             exhaustive: false,
         }));
     }
-    Property { id: "C15", stages, assumptions: vec!["time limits are set far away; TimeLimit is never asserted about".into()] }
+    Property { id: "C15", scale: tier.pick(5, 2), stages, assumptions: vec!["time limits are set far away; TimeLimit is never asserted about".into()] }
 }
